@@ -150,6 +150,47 @@ def rule_newline_neutral(chk: Check, ix: Index):
                 f"bracket depth must change by one per bracket token (writes: {writes})")
 
 
+def rule_statement_depth(chk: Check, ix: Index):
+    """A line is taken as the start of a statement only at bracket depth exactly 0.  The depth is a counter nothing resets: were a
+    statement started at another depth (a stray closer takes it below zero), that depth would be carried into every later
+    statement, whose multi-line brackets then read differently than in a parse of their own."""
+    chk.count("N4-newline-neutral")
+    sites = []
+    for q, f in sorted(ix.funcs.items()):
+        if f.rel != repo.TOKENIZE:
+            continue
+        parents = {c: p for p in ast.walk(f.node) for c in ast.iter_child_nodes(p)}
+        for n in own_nodes(f.node):
+            if isinstance(n, ast.Call) and norm_stmt(n.func) == "next_statement":
+                guards, cur = [], n
+                while cur in parents:
+                    par = parents[cur]
+                    if isinstance(par, ast.If) and cur is not par.test:
+                        guards.append((par.test, cur in par.body))
+                    cur = par
+                sites.append((f, n, guards))
+    if not sites:
+        chk.undecided("N4-newline-neutral", "next_statement:depth-zero", repo.TOKENIZE, "no call of next_statement found")
+        return
+    for f, n, guards in sites:
+        atoms = []
+        for test, pos in guards:
+            parts = test.values if isinstance(test, ast.BoolOp) and isinstance(test.op, ast.And if pos else ast.Or) else [test]
+            for a in parts:
+                if "parenlev" in norm_stmt(a):
+                    atoms.append((norm_stmt(a), pos))
+        exact = any((t in ("state.parenlev == 0", "0 == state.parenlev", "not state.parenlev") and pos) or
+                    (t in ("state.parenlev != 0", "0 != state.parenlev", "state.parenlev") and not pos) for t, pos in atoms)
+        if not atoms:
+            chk.undecided("N4-newline-neutral", "next_statement:depth-zero", f"{f.rel}:{n.lineno}",
+                          "the call is not under an `if` that mentions the bracket depth")
+        else:
+            chk.require(exact, "N4-newline-neutral", "next_statement:depth-zero", f"{f.rel}:{n.lineno}",
+                        f"a statement may start only at bracket depth exactly 0 (guards on the depth here: {atoms}): the depth is never "
+                        f"reset, so a statement started below zero leaves every later statement at the wrong depth — parts of an input no "
+                        f"longer parse as they do alone")
+
+
 def rule_n1(chk: Check, ir):
     f = ir.rules.get("file")
     s = ir.rules.get("statements")
@@ -225,6 +266,11 @@ def run(chk: Check):
     macros.rule_m5(chk, ix)
     rule_counter(chk, ix)
     rule_newline_neutral(chk, ix)
+    rule_statement_depth(chk, ix)
+    # the text handed to the scanner is the caller's text: a normalisation of the end of the input (stripping blanks or empty lines)
+    # applies to a part parsed alone and not to the same part in front of another one — raw-text captures then differ
+    from .c12 import rule_source_verbatim
+    rule_source_verbatim(chk, ix, "N6-source-verbatim")
     rule_n5(chk, ix)
     from .c01 import rule_is_blank
     rule_is_blank(chk, "K7-token-filter")   # the one reviewed use of the previous token (a NEWLINE after a NEWLINE) is decided here
